@@ -58,6 +58,7 @@ type havoc struct {
 	region  func(loc string) string // nil: everything
 	content func(loc string) string // nil: unknown (select sym loc)
 	done    map[string]bool
+	inst    map[string][]int // loc -> tags at which the frame instance was emitted
 }
 
 // State is the symbolic machine state at a program point.
@@ -66,6 +67,7 @@ type State struct {
 	heaps map[string]*Heap
 	alloc string // Int term: ids >= alloc are unallocated
 	epoch int    // bumped when all memory is havocked
+	ghost map[string]Val // results of the latest interface-method calls (callresult())
 	tags  map[string]int // interface term -> dynamic type tag known on every path to here (>0), or -tag: known NOT to be
 }
 
@@ -73,6 +75,12 @@ func (s *State) clone() *State {
 	n := &State{reach: s.reach, alloc: s.alloc, epoch: s.epoch, heaps: make(map[string]*Heap, len(s.heaps))}
 	for k, v := range s.heaps {
 		n.heaps[k] = v
+	}
+	if len(s.ghost) > 0 {
+		n.ghost = make(map[string]Val, len(s.ghost))
+		for k, v := range s.ghost {
+			n.ghost[k] = v
+		}
 	}
 	if len(s.tags) > 0 {
 		n.tags = make(map[string]int, len(s.tags))
@@ -116,6 +124,9 @@ type FnVC struct {
 	frameAny    bool
 	implTypes   map[string]types.Type
 	mergedEpochs map[int]*mergedEpoch
+	privEpochs   map[int]*privEpoch
+	baseCache    map[string]*Heap
+	private      string // root term of memory that unknown callees cannot reach
 	ifaceFrameProps []string
 	lazies  []*lazyQuant
 	siteN   int
@@ -224,28 +235,53 @@ func (fv *FnVC) heapOf(st *State, key, srt string) *Heap {
 		return h
 	}
 	hi := fv.heapInfoFor(key, srt)
-	return &Heap{term: fv.baseHeap(hi, st.epoch), info: hi}
+	return fv.baseHeapObj(hi, st.epoch)
 }
 
-// baseHeap is the unknown initial contents of a heap in a given epoch.
-func (fv *FnVC) baseHeap(hi *heapInfo, epoch int) string {
+// baseHeapObj is the unknown initial contents of a heap in a given epoch:
+// epoch 0 is the state at function entry; later epochs arise from calls with
+// unknown effects (possibly preserving the memory owned by a private root)
+// and from joins of paths with different epochs.
+func (fv *FnVC) baseHeapObj(hi *heapInfo, epoch int) *Heap {
 	if epoch == 0 {
-		return hi.name + "_0"
+		return &Heap{term: hi.name + "_0", info: hi}
+	}
+	ck := fmt.Sprintf("%s/%d", hi.key, epoch)
+	if h, ok := fv.baseCache[ck]; ok {
+		return h
 	}
 	n := fmt.Sprintf("%s_e%d", hi.name, epoch)
-	if !fv.ufDecl[n] {
-		fv.ufDecl[n] = true
-		if me := fv.mergedEpochs[epoch]; me != nil {
-			t := fv.baseHeap(hi, me.parents[len(me.parents)-1])
-			for i := len(me.parents) - 2; i >= 0; i-- {
-				t = ite(me.conds[i], fv.baseHeap(hi, me.parents[i]), t)
-			}
-			fv.lines = append(fv.lines, vline{fmt.Sprintf("(define-fun %s () (Array Loc %s) %s)", n, hi.sort, t), me.tag})
-		} else {
-			fv.emitGlobal(fmt.Sprintf("(declare-const %s (Array Loc %s))", n, hi.sort))
+	var h *Heap
+	if me := fv.mergedEpochs[epoch]; me != nil {
+		last := fv.baseHeapObj(hi, me.parents[len(me.parents)-1])
+		t := last.term
+		hv := last.havocs
+		for i := len(me.parents) - 2; i >= 0; i-- {
+			p := fv.baseHeapObj(hi, me.parents[i])
+			t = ite(me.conds[i], p.term, t)
+			hv = mergeHavocs(p.havocs, hv)
 		}
+		fv.lines = append(fv.lines, vline{fmt.Sprintf("(define-fun %s () (Array Loc %s) %s)", n, hi.sort, t), me.tag})
+		h = &Heap{term: n, info: hi, havocs: hv}
+	} else if pe := fv.privEpochs[epoch]; pe != nil {
+		fv.emitGlobal(fmt.Sprintf("(declare-const %s (Array Loc %s))", n, hi.sort))
+		parent := fv.baseHeapObj(hi, pe.prev)
+		hvc := &havoc{sym: n, parent: parent, region: pe.region, done: map[string]bool{}}
+		h = &Heap{term: n, info: hi, havocs: []*havoc{hvc}}
+	} else {
+		fv.emitGlobal(fmt.Sprintf("(declare-const %s (Array Loc %s))", n, hi.sort))
+		h = &Heap{term: n, info: hi}
 	}
-	return n
+	if fv.baseCache == nil {
+		fv.baseCache = map[string]*Heap{}
+	}
+	fv.baseCache[ck] = h
+	return h
+}
+
+type privEpoch struct {
+	prev   int
+	region func(string) string
 }
 
 // mergedEpoch: the memory epoch after a join of paths with different epochs.
@@ -268,11 +304,28 @@ func (fv *FnVC) loadRaw(h *Heap, loc string) string {
 	return "(select " + h.term + " " + loc + ")"
 }
 
+// emittedHere: was a fact keyed k already emitted at a point that is visible
+// from the current slicing tag (an ancestor node, or a global line)?
+func (fv *FnVC) emittedHere(memo map[string][]int, k string) bool {
+	for _, t := range memo[k] {
+		if t == -1 || t == fv.curTag {
+			return true
+		}
+		if a := fv.anc[fv.curTag]; a != nil && a[t] {
+			return true
+		}
+	}
+	memo[k] = append(memo[k], fv.curTag)
+	return false
+}
+
 func (fv *FnVC) instHavoc(hv *havoc, loc string) {
-	if hv.done[loc] {
+	if hv.inst == nil {
+		hv.inst = map[string][]int{}
+	}
+	if fv.emittedHere(hv.inst, loc) {
 		return
 	}
-	hv.done[loc] = true
 	inner := fv.loadRaw(hv.parent, loc)
 	sel := "(select " + hv.sym + " " + loc + ")"
 	if hv.region == nil {
@@ -393,7 +446,7 @@ func (fv *FnVC) mergeStates(conds []string, sts []*State) *State {
 			h, ok := s.heaps[k]
 			if !ok {
 				hi := fv.heapTab[k]
-				h = &Heap{term: fv.baseHeap(hi, s.epoch), info: hi}
+				h = fv.baseHeapObj(hi, s.epoch)
 			}
 			hs = append(hs, h)
 			if h.term != hs[0].term {
@@ -430,6 +483,21 @@ func (fv *FnVC) mergeStates(conds []string, sts []*State) *State {
 				out.tags = map[string]int{}
 			}
 			out.tags[k] = v
+		}
+	}
+	// ghost call results: merged like values; a key missing on some path is dropped
+	for k := range sts[0].ghost {
+		var vs []Val
+		for _, s := range sts {
+			if v, ok := s.ghost[k]; ok {
+				vs = append(vs, v)
+			}
+		}
+		if len(vs) == len(sts) {
+			if out.ghost == nil {
+				out.ghost = map[string]Val{}
+			}
+			out.ghost[k] = fv.mergeVals(conds, vs)
 		}
 	}
 	out.epoch = sts[0].epoch
@@ -554,7 +622,8 @@ func (fv *FnVC) assumeWF(st *State, v Val) {
 	g := st.reach
 	switch v.K {
 	case KLoc:
-		fv.assume(g, and("(< (root "+v.T+") "+st.alloc+")"))
+		fv.assume(g, "(< (root "+v.T+") "+st.alloc+")")
+		fv.assumePtrType(g, v)
 	case KSlice:
 		fv.assume(g, and("(< (root (sarr "+v.T+")) "+st.alloc+")",
 			"(bvsle #x0000000000000000 (soff "+v.T+"))", "(bvsle #x0000000000000000 (slen "+v.T+"))",
@@ -718,4 +787,27 @@ func (fv *FnVC) implPred(t types.Type) string {
 		fv.emitGlobal("(declare-fun " + name + " (Int) Bool)")
 	}
 	return name
+}
+
+// assumePtrType: a non-nil pointer to an aggregate (struct / array) type
+// addresses a location of exactly that type, so pointers to different
+// aggregate types never alias (Go type safety; no unsafe in the module).
+func (fv *FnVC) assumePtrType(g string, v Val) {
+	if v.Typ == nil || fv.boundDepth > 0 {
+		return
+	}
+	pt, ok := types.Unalias(v.Typ).Underlying().(*types.Pointer)
+	if !ok {
+		return
+	}
+	switch types.Unalias(pt.Elem()).Underlying().(type) {
+	case *types.Struct, *types.Array:
+	default:
+		return
+	}
+	if _, opq := isOpaque(pt.Elem()); opq {
+		return
+	}
+	id := fv.eng.tagOf(pt.Elem())
+	fv.assume(g, or(eq(v.T, "LNil"), eq("(ltype "+v.T+")", fmt.Sprint(id))))
 }
